@@ -5,3 +5,4 @@ import RB.Model.Cmdline
 import RB.Model.Denoise
 import RB.Proofs.C15
 import RB.Proofs.C03
+import RB.Proofs.C20
